@@ -717,7 +717,9 @@ func isEscrowHookFiringDirect(call ssa.CallInstruction) bool {
 	return len(a) > 0 && strings.Contains(Sym(a[0]), "EscrowAccountForDeployment(")
 }
 
-func (c *Check) staleAcrossHooks(kinds map[string]*recKind) {
+func (c *Check) staleAcrossHooks(kinds map[string]*recKind) { c.staleAcrossHooksRule("R5", kinds) }
+
+func (c *Check) staleAcrossHooksRule(rule string, kinds map[string]*recKind) {
 	l := c.L
 	// functions (market/deployment keepers) that directly contain a hook-firing escrow call
 	hf := map[*ssa.Function]bool{}
@@ -840,11 +842,11 @@ func (c *Check) staleAcrossHooks(kinds map[string]*recKind) {
 					}
 				}
 			})
-			c.Ob("R5", fnName(fn)+": no record fetched before "+calleeMethod(e)+" (may fire escrow hooks) is used after it", pos, stale == "", "stale use after a call that can close the deployment/groups/leases through escrow hooks: "+stale)
+			c.Ob(rule, fnName(fn)+": no record fetched before "+calleeMethod(e)+" (may fire escrow hooks) is used after it", pos, stale == "", "stale use after a call that can close the deployment/groups/leases through escrow hooks: "+stale)
 		}
 	}
 	if nE < 4 {
-		c.Fail("C04-R5 lost instances: %d hook-firing calls", nE)
+		c.Fail("%s lost instances: %d hook-firing calls", rule, nE)
 	}
 }
 
